@@ -28,6 +28,10 @@ RULE = ("case = well-formed workflow (2-7 targets) + backend slurm|sge|lsf + per
         "of a subset: exit 0, every selected live target's process is gone within 5 s and it no longer shows "
         "submitted/running, unselected live ones keep running, every selected stale/finished/never target is named "
         "in the output (non-trivial: a live and an uncancellable target selected together). "
+        ""
+        "Also: jobs stuck in a state gwf cannot classify (SGE Eqw, LSF UNKWN) must still be cancelled; fault "
+        "kinds exit-without-'error:', killed command, and a scheduler that stays busy for every retry of the "
+        "same request; invocation styles of project.Project. "
         "Distinct = SHA-1 of canonical case JSON.")
 ASSUMPTIONS = [
     "scancel --verbose / qdel / bkill as simulated from their manuals (error text for unknown or finished jobs)",
